@@ -46,7 +46,9 @@ TRUSTED_BASE = [
 ASSUMPTIONS = ['AnalysisPeriod objects have no public setters (sharing one is not shared mutable state)',
                'DataType objects are treated as immutable values']
 
-UNITS = ['C', 'F', 'K', 'X']
+UNITS = ['C', 'F', 'K', 'X', 'kWh', 'kWh/m2', 'W', 'W/m2']
+DTYPES = {'Temperature': 0, 'Energy': 1, 'EnergyIntensity': 2, 'Power': 3, 'EnergyFlux': 4}
+BASE_UNIT = {'Temperature': 'C', 'Energy': 'kWh', 'EnergyIntensity': 'kWh/m2', 'Power': 'W', 'EnergyFlux': 'W/m2'}
 CLS = {'HourlyDiscontinuous': 'hd', 'HourlyContinuous': 'hc', 'Daily': 'daily', 'Monthly': 'monthly',
        'MonthlyPerHour': 'mph'}
 MKEYS = {'operation': 0, 'k1': 1, 'k2': 2, 'k3': 3, 'type': 4, 'source': 5, 'city': 6, 'country': 7}
@@ -105,19 +107,22 @@ def _dtype(name='Temperature'):
     from ladybug.datatype.energy import Energy
     from ladybug.datatype.power import Power
     from ladybug.datatype.energyintensity import EnergyIntensity
+    from ladybug.datatype.energyflux import EnergyFlux
     return {'Temperature': Temperature, 'Energy': Energy, 'Power': Power,
-            'EnergyIntensity': EnergyIntensity}[name]()
+            'EnergyIntensity': EnergyIntensity, 'EnergyFlux': EnergyFlux}[name]()
 
 
-def build_obj(spec):
-    """A collection from a plain spec; every part (header, period, metadata dict, lists) is new."""
+def build_obj(spec, values=None):
+    """A collection from a plain spec; every part (header, period, metadata dict, lists) is new.
+    `values`: a list object the caller holds, handed to the constructor as it is."""
     from ladybug.header import Header
     cls = _classes()[(spec['cls'], spec['mutable'])]
     hdr = Header(_dtype(spec.get('dtype', 'Temperature')), spec['unit'], _mk_ap(spec['ap']),
                  copy.deepcopy(spec['meta']))
+    vals = list(spec['vals']) if values is None else values
     if spec['cls'] == 'hc':
-        return cls(hdr, list(spec['vals']))
-    return cls(hdr, list(spec['vals']), [_dt_from_token(spec['cls'], t) for t in spec['dts']])
+        return cls(hdr, vals)
+    return cls(hdr, vals, [_dt_from_token(spec['cls'], t) for t in spec['dts']])
 
 
 def _mv(v):
@@ -133,12 +138,38 @@ def _b(x):
     return '1' if x else '0'
 
 
-def obs_str(c):
-    """Snapshot of one collection in the model driver's format (public API only)."""
+def _kind(o):
+    """'coll' | 'args' (a list holding a collection: the argument of compute_function_aligned) | 'list'."""
+    from ladybug._datacollectionbase import BaseCollection
+    if isinstance(o, BaseCollection):
+        return 'coll'
+    if isinstance(o, list) and any(isinstance(x, BaseCollection) for x in o):
+        return 'args'
+    return 'list'
+
+
+def _mv_any(v):
+    return '[' + ';'.join(_mv(x) for x in v) + ']' if isinstance(v, list) else _mv(v)
+
+
+def obs_str(c, live=()):
+    """Snapshot of one live object in the model driver's format (public API only)."""
+    kind = _kind(c)
+    if kind == 'list':
+        return 'list V:' + ','.join(_frac(v) for v in c)
+    if kind == 'args':
+        items = []
+        for x in c:
+            if _kind(x) == 'coll':
+                idx = [i for i, o in enumerate(live) if o is x]
+                items.append('c:%s' % (idx[0] if idx else '?'))
+            else:
+                items.append('s:' + _frac(x))
+        return 'args ' + ','.join(items)
     cls = CLS.get(c._collection_type, '?')
     h = c.header
-    meta = sorted((MKEYS.get(k, 99), _mv(v)) for k, v in h.metadata.items())
-    dtn = 0 if type(h.data_type).__name__ == 'Temperature' else 99
+    meta = sorted((MKEYS.get(k, 99), _mv_any(v)) for k, v in h.metadata.items())
+    dtn = DTYPES.get(type(h.data_type).__name__, 99)
     unit = UNITS.index(h.unit) if h.unit in UNITS else 99
     return '%s %s %s %d %d A:%s M:%s D:%s V:%s' % (
         cls, _b(c.is_mutable), _b(c.validated_a_period), dtn, unit,
@@ -148,18 +179,30 @@ def obs_str(c):
         ','.join(_frac(v) for v in c.values))
 
 
+def _nested(c):
+    return [v for v in c.header.metadata.values() if isinstance(v, list)]
+
+
 def share_str(live, r):
+    """Which parts of collection `r` are the same Python objects as parts of the live objects."""
     parts = []
     for j, o in enumerate(live):
         s = ''
-        if r.header is o.header:
-            s += 'h'
-        if r.header.metadata is o.header.metadata:
-            s += 'm'
-        if r.header.analysis_period is o.header.analysis_period:
-            s += 'a'
-        if r._values is o._values and isinstance(r._values, list):
-            s += 'v'
+        kind = _kind(o)
+        if kind == 'coll':
+            if r.header is o.header:
+                s += 'h'
+            if r.header.metadata is o.header.metadata:
+                s += 'm'
+            if r.header.analysis_period is o.header.analysis_period:
+                s += 'a'
+            if r._values is o._values and isinstance(r._values, list):
+                s += 'v'
+            if any(x is y for x in _nested(r) for y in _nested(o)):
+                s += 'l'
+        elif kind == 'list':
+            if r._values is o:
+                s += 'v'
         if s:
             parts.append('%d:%s' % (j, s))
     return 'share=' + ','.join(parts)
@@ -167,6 +210,11 @@ def share_str(live, r):
 
 def snapshot(c):
     """Deep, independent snapshot of everything the property lists."""
+    kind = _kind(c)
+    if kind == 'list':
+        return ('list', tuple(c))
+    if kind == 'args':
+        return ('args', tuple(id(x) if _kind(x) == 'coll' else x for x in c))
     h = c.header
     return (type(c).__name__, tuple(c.values), h.unit, type(h.data_type).__name__,
             tuple(_ap_tokens(h.analysis_period)), json.dumps(h.metadata, sort_keys=True, default=str),
@@ -231,8 +279,12 @@ def apply_derive(live, on, op, a):
     if op == 'to_si':
         return [c.to_si()]
     if op == 'aligned':
-        return [c.get_aligned_collection(a['v'], None, None if a.get('u') is None else UNITS[a['u']],
+        value = live[a['r']] if 'r' in a else a['v']       # 'r': a list object the caller holds
+        return [c.get_aligned_collection(value, None, None if a.get('u') is None else UNITS[a['u']],
                                          a.get('m'))]
+    if op == 'cfa_ref':
+        # the caller's own list [self, x] (a live object) is handed to compute_function_aligned
+        return [BaseCollection.compute_function_aligned(_plus, live[a['args']], _dtype(), UNITS[a['u']])]
     if op == 'filter_pattern':
         return [c.filter_by_pattern(a['mask'])]
     if op == 'filter_range':
@@ -279,7 +331,7 @@ def apply_derive(live, on, op, a):
         return [c.normalize_by_area(a['area'], 'm2')]
     if op == 'aggregate_area':
         return [c.aggregate_by_area(a['area'], 'm2')]
-    if op == 'time_aggregated':
+    if op in ('time_aggregated', 'time_agg'):
         return [c.to_time_aggregated()]
     if op == 'time_rate':
         return [c.to_time_rate_of_change()]
@@ -315,15 +367,14 @@ def apply_mutator(c, op, a):
         c.values = list(a['v'])
     elif op == 'set_item':
         c[a['i']] = a['x']
+    elif op == 'set_values_ref':                # the values setter receives the caller's own list
+        c.values = a['_live'][a['r']]
     elif op == 'meta_set':
-        c.header.metadata[a['k']] = a['v']
+        c.header.metadata[a['k']] = list(a['v']) if isinstance(a['v'], list) else a['v']
     elif op == 'meta_replace':
-        c.header.metadata = dict(a['m'])
-    elif op == 'meta_append':                   # nested metadata value edited in place (oracle only)
-        v = c.header.metadata.get(a['k'])
-        if not isinstance(v, list):
-            raise KeyError(a['k'])
-        v.append(a['x'])
+        c.header.metadata = dict((k, list(v) if isinstance(v, list) else v) for k, v in a['m'].items())
+    elif op == 'meta_append':                   # nested metadata value edited in place
+        c.header.metadata[a['k']].append(a['x'])
     elif op == 'cull_inplace':
         c.convert_to_culled_timestep(a['ts'])
     elif op == 'values_append':                 # `coll.values` must not hand out the internal list
@@ -336,7 +387,7 @@ def apply_mutator(c, op, a):
 # generators (plain numbers only; nothing here calls the code under test)
 
 
-def gen_spec(rng, cls=None, mutable=None, hourly_days=None):
+def gen_spec(rng, cls=None, mutable=None, hourly_days=None, energy=None):
     cls = cls or rng.choice(['hd', 'hc', 'hc', 'daily', 'monthly', 'mph'])
     mutable = (rng.random() < 0.55) if mutable is None else mutable
     unit = rng.choice(['C', 'C', 'C', 'F', 'K'])
@@ -389,36 +440,75 @@ def gen_spec(rng, cls=None, mutable=None, hourly_days=None):
         vals = [rng.randint(-40, 80) / 2.0 for _ in dts]
     else:
         vals = [rng.choice([0, 0, 360, 370, -10, 45, 725]) for _ in dts]
-    return {'cls': cls, 'mutable': mutable, 'unit': unit, 'ap': ap, 'meta': meta, 'dts': dts, 'vals': vals}
+    spec = {'cls': cls, 'mutable': mutable, 'unit': unit, 'ap': ap, 'meta': meta, 'dts': dts, 'vals': vals}
+    if energy is None:
+        energy = rng.random() < 0.15
+    if energy:
+        # a source of the energy family (base units only): area / time normalisations apply
+        dt = rng.choice(['Energy', 'EnergyIntensity', 'Power', 'EnergyFlux'])
+        spec.update(dtype=dt, unit=BASE_UNIT[dt], vals=[abs(v) + 1 for v in vals])
+        spec['meta'] = dict((k, v) for k, v in meta.items() if k != 'type')
+        if rng.random() < 0.6:
+            spec['meta']['type'] = rng.choice(['Zone Energy', 'Zone Energy Intensity'])
+    return spec
 
 
 DERIVE_OPS = ['add', 'sub', 'mul', 'div', 'neg', 'dup', 'to_mutable', 'to_immutable', 'to_disc', 'to_unit',
               'to_ip', 'to_si', 'aligned', 'filter_pattern', 'filter_range', 'filter_keys', 'filter_ap',
-              'cull', 'agg', 'validate', 'interp_holes', 'interp_ts', 'cfa', 'windrose']
+              'cull', 'agg', 'validate', 'interp_holes', 'interp_ts', 'cfa', 'windrose',
+              'cfa_ref', 'normalize', 'aggregate_area', 'time_agg', 'time_rate']
+CONV_OPS = ('to_unit', 'to_ip', 'to_si')
+ENERGY_OPS = ('normalize', 'aggregate_area', 'time_agg', 'time_rate')
 MUTATORS = ['conv_unit', 'conv_ip', 'conv_si', 'set_values', 'set_item', 'meta_set', 'meta_replace',
-            'cull_inplace']
+            'cull_inplace', 'meta_append', 'set_values_ref']
 
 
 def gen_derive(rng, infos, malformed):
     """infos: per live object dict(cls, n, dts, ap, mutable, validated). Returns (on, op, args)."""
-    on = rng.randrange(len(infos))
+    colls = [j for j, o in enumerate(infos) if o['kind'] == 'coll']
+    on = rng.choice(colls)
     me = infos[on]
     op = rng.choice(DERIVE_OPS)
+    if me['dtype'] != 'Temperature':
+        if op in CONV_OPS:                      # unit conversion is modelled for Temperature only
+            op = rng.choice(ENERGY_OPS)
+    elif op in ENERGY_OPS and rng.random() < 0.7:
+        return gen_derive(rng, infos, malformed)    # mostly on the energy family (else: rejection paths)
     a = {}
-    same = [j for j, o in enumerate(infos) if o['cls'] == me['cls'] and o['n'] == me['n']]
-    if op in ('add', 'sub', 'mul', 'div'):
+    same = [j for j in colls if infos[j]['cls'] == me['cls'] and infos[j]['n'] == me['n']]
+    lists = [j for j, o in enumerate(infos) if o['kind'] == 'list']
+    if op in ('normalize', 'aggregate_area'):
+        a['area'] = rng.choice([2, 4, 0.5]) if not malformed else 0
+    elif op in ('time_agg', 'time_rate'):
+        pass
+    elif op == 'cfa_ref':
+        argl = [j for j, o in enumerate(infos) if o['kind'] == 'args' and o['first'] == on]
+        if not argl:
+            return gen_derive(rng, infos, malformed)
+        a['args'] = rng.choice(argl)
+        a['u'] = rng.randrange(3) if not malformed else 3
+    elif op in ('add', 'sub', 'mul', 'div'):
         if rng.random() < 0.5:
             a['s'] = rng.choice([2, 3, 0.5, -1]) if not (malformed and op == 'div') else 0
         else:
-            a['c'] = rng.choice(same) if not malformed else rng.randrange(len(infos))
+            a['c'] = rng.choice(same) if not malformed else rng.choice(colls)
+            if op == 'div' and infos[a['c']]['nearzero']:
+                return gen_derive(rng, infos, malformed)    # 0 in exact arithmetic, 1e-15 as a float
     elif op == 'to_unit':
         a['u'] = 3 if malformed else rng.randrange(3)
     elif op == 'aligned':
-        if rng.random() < 0.5:
+        r = rng.random()
+        fit = [j for j in lists if infos[j]['n'] == me['n']] if not malformed else lists
+        if r < 0.35 and fit:
+            a['r'] = rng.choice(fit)                        # the caller's own list object
+        elif r < 0.6:
             a['v'] = rng.choice([0, 5, 2.5])
         else:
             a['v'] = [rng.randint(0, 9) for _ in range(me['n'] + (1 if malformed else 0))]
-        a['u'] = rng.choice([None, None, 0, 1, 2]) if not malformed else rng.choice([None, 3])
+        if me['dtype'] != 'Temperature':
+            a['u'] = None
+        else:
+            a['u'] = rng.choice([None, None, 0, 1, 2]) if not malformed else rng.choice([None, 3])
         a['m'] = rng.choice([None, None, True, False])
     elif op == 'filter_pattern':
         a['mask'] = [rng.random() < 0.6 for _ in range(rng.choice([1, 2, 3, me['n']]))]
@@ -461,7 +551,7 @@ def gen_derive(rng, infos, malformed):
         if rng.random() < 0.5:
             a['s'] = rng.choice([1, 2.5])
         else:
-            a['c'] = rng.choice(same) if not malformed else rng.randrange(len(infos))
+            a['c'] = rng.choice(same) if not malformed else rng.choice(colls)
         a['u'] = rng.randrange(3) if not malformed else 3
     elif op == 'windrose':
         ok = [j for j in same if infos[j]['validated']]
@@ -473,11 +563,28 @@ def gen_derive(rng, infos, malformed):
 
 
 def gen_mutator(rng, infos, malformed):
-    on = rng.randrange(len(infos))
+    colls = [j for j, o in enumerate(infos) if o['kind'] == 'coll']
+    on = rng.choice(colls)
     me = infos[on]
     op = rng.choice(MUTATORS)
+    if me['dtype'] != 'Temperature' and op in ('conv_unit', 'conv_ip', 'conv_si'):
+        op = 'set_item'
     a = {}
-    if op == 'conv_unit':
+    if op == 'meta_append':
+        # mostly a key that holds a nested list; sometimes a scalar key (AttributeError) or none (KeyError)
+        nested = [k for k, t in me['meta'].items() if t == 'list' and k in ('k1', 'k2', 'k3', 'type')]
+        if nested and rng.random() < 0.8:
+            a['k'] = rng.choice(nested)
+        else:
+            a['k'] = rng.choice(['k1', 'k2', 'k3'])
+        a['x'] = rng.choice([77, 'more'])
+    elif op == 'set_values_ref':
+        lists = [j for j, o in enumerate(infos) if o['kind'] == 'list']
+        fit = [j for j in lists if infos[j]['n'] == me['n']] if not malformed else lists
+        if not fit:
+            return gen_mutator(rng, infos, malformed)
+        a['r'] = rng.choice(fit)
+    elif op == 'conv_unit':
         a['u'] = rng.randrange(3) if not malformed else 3
     elif op == 'set_values':
         a['v'] = [rng.randint(50, 99) for _ in range(me['n'] + (1 if malformed else 0))]
@@ -486,9 +593,9 @@ def gen_mutator(rng, infos, malformed):
         a['x'] = rng.choice([99, -7, 0.5])
     elif op == 'meta_set':
         a['k'] = rng.choice(['k1', 'k2', 'k3'])
-        a['v'] = rng.choice([42, 'edited'])
+        a['v'] = rng.choice([42, 'edited', [5, 6], ['x']])
     elif op == 'meta_replace':
-        a['m'] = rng.choice([{}, {'k1': 5}, {'k2': 'new', 'k3': 8}])
+        a['m'] = rng.choice([{}, {'k1': 5}, {'k2': 'new', 'k3': 8}, {'k1': [9], 'k3': 1}])
     elif op == 'cull_inplace':
         # a continuous collection culled to another timestep no longer matches its period: not generated
         # (nor is a collection emptied by culling: the code then leaves an object no constructor accepts)
@@ -506,19 +613,36 @@ def _lst(xs, f=str):
     return ' '.join([str(len(xs))] + [f(x) for x in xs])
 
 
+def _meta_item(k, v):
+    if isinstance(v, list):
+        return '%d L %s' % (MKEYS[k], _lst(v, _mv))
+    return '%d T %s' % (MKEYS[k], _mv(v))
+
+
 def _meta_line(m):
-    items = [(MKEYS[k], _mv(v)) for k, v in m.items()]
-    return ' '.join([str(len(items))] + ['%d %s' % kv for kv in items])
+    return ' '.join([str(len(m))] + [_meta_item(k, v) for k, v in m.items()])
 
 
-def cmd_new(spec, validated):
-    return 'new %s %s %s 0 %d %s %s %s %s' % (
-        spec['cls'], _b(spec['mutable']), _b(validated), UNITS.index(spec['unit']), _lst(spec['ap']),
-        _meta_line(spec['meta']), _lst(spec['dts']), _lst(spec['vals'], _frac))
+def cmd_new(spec, validated, vr=None):
+    vals = 'V ' + _lst(spec['vals'], _frac) if vr is None else 'VR %d' % vr
+    return 'new %s %s %s %d %d %s %s %s %s' % (
+        spec['cls'], _b(spec['mutable']), _b(validated), DTYPES[spec.get('dtype', 'Temperature')],
+        UNITS.index(spec['unit']), _lst(spec['ap']), _meta_line(spec['meta']), _lst(spec['dts']), vals)
 
 
 def _operand(a):
     return 'c %d' % a['c'] if 'c' in a else 's ' + _frac(a['s'])
+
+
+def _type_token(meta, op):
+    """The new 'type' metadata value of normalize_by_area / aggregate_by_area (computed here, not read
+    from the result)."""
+    old = meta.get('type')
+    if old is None:
+        return "'-'"
+    if op == 'normalize':
+        return _mv('{} {}'.format(old, 'Intensity'))
+    return _mv(str(old).replace(' Intensity', ''))
 
 
 def cmd_derive(on, op, a, res, src_info):
@@ -526,15 +650,22 @@ def cmd_derive(on, op, a, res, src_info):
     head = 'd %d ' % on
     if op in ('add', 'sub', 'mul', 'div'):
         return head + op + ' ' + _operand(a)
-    if op in ('neg', 'dup', 'to_mutable', 'to_immutable', 'to_disc', 'to_ip', 'to_si'):
+    if op in ('neg', 'dup', 'to_mutable', 'to_immutable', 'to_disc', 'to_ip', 'to_si', 'time_agg', 'time_rate'):
         return head + op
     if op == 'to_unit':
         return head + 'to_unit %d' % a['u']
+    if op in ('normalize', 'aggregate_area'):
+        return head + '%s %s %s' % (op, _frac(a['area']), _type_token(src_info['meta_values'], op))
     if op == 'aligned':
-        v = a['v']
-        vs = 'l ' + _lst(v, _frac) if isinstance(v, list) else 's ' + _frac(v)
+        if 'r' in a:
+            vs = 'r %d' % a['r']
+        else:
+            v = a['v']
+            vs = 'l ' + _lst(v, _frac) if isinstance(v, list) else 's ' + _frac(v)
         return head + 'aligned %s %s %s' % (vs, '-' if a.get('u') is None else a['u'],
                                             '-' if a.get('m') is None else _b(a['m']))
+    if op == 'cfa_ref':
+        return head + 'cfa_ref %d %d' % (a['args'], a['u'])
     if op == 'filter_pattern':
         return head + 'filter_pattern ' + _lst(a['mask'], _b)
     if op == 'filter_range':
@@ -575,10 +706,14 @@ def cmd_mutator(on, op, a):
         return head + op
     if op == 'set_values':
         return head + 'set_values ' + _lst(a['v'], _frac)
+    if op == 'set_values_ref':
+        return head + 'set_values_ref %d' % a['r']
     if op == 'set_item':
         return head + 'set_item %d %s' % (a['i'], _frac(a['x']))
     if op == 'meta_set':
-        return head + 'meta_set %d %s' % (MKEYS[a['k']], _mv(a['v']))
+        return head + 'meta_set ' + _meta_item(a['k'], a['v'])
+    if op == 'meta_append':
+        return head + 'meta_append %d %s' % (MKEYS[a['k']], _mv(a['x']))
     if op == 'meta_replace':
         return head + 'meta_replace ' + _meta_line(a['m'])
     if op == 'cull_inplace':
@@ -589,11 +724,142 @@ def cmd_mutator(on, op, a):
 PAYLOAD_OPS = ('agg', 'validate', 'interp_holes', 'interp_ts')
 
 
-def _info(c):
+def _info(c, live=()):
+    kind = _kind(c)
+    if kind == 'list':
+        return {'kind': 'list', 'n': len(c)}
+    if kind == 'args':
+        first = [i for i, o in enumerate(live) if o is c[0]]
+        return {'kind': 'args', 'first': first[0] if first else -1}
     cls = CLS[c._collection_type]
-    return {'cls': cls, 'n': len(c.values), 'dts': [_dt_token(cls, d) for d in c.datetimes],
+    md = c.header.metadata
+    return {'kind': 'coll', 'cls': cls, 'n': len(c.values), 'dts': [_dt_token(cls, d) for d in c.datetimes],
             'ap': _ap_tokens(c.header.analysis_period), 'mutable': c.is_mutable,
-            'validated': c.validated_a_period}
+            'validated': c.validated_a_period, 'dtype': type(c.header.data_type).__name__,
+            'meta': dict((k, 'list' if isinstance(v, list) else 'tok') for k, v in md.items()),
+            'meta_values': dict((k, v) for k, v in md.items() if k == 'type'),
+            'nearzero': any(0 < abs(v) < 1e-6 for v in c.values)}
+
+
+def _obs_all(live):
+    return ' # '.join(obs_str(o, live) for o in live)
+
+
+def exec_step(live, st):
+    """Execute one plain step on the real objects (appending new live objects).
+    Returns (status text, model command) or None when the step is to be dropped."""
+    k = st['k']
+    if k == 'new':                                   # a source; 'vr': values = the caller's list live[vr]
+        try:
+            c = build_obj(st['spec'], None if st.get('vr') is None else live[st['vr']])
+        except Exception as e:
+            return 'err:' + err_name(e), cmd_new(st['spec'], st['spec']['cls'] == 'hc', st.get('vr'))
+        cmd = cmd_new(st['spec'], c.validated_a_period, st.get('vr'))
+        status = 'ok %d %s' % (len(live), share_str(live, c))
+        live.append(c)
+        return status, cmd
+    if k == 'nl':
+        live.append(list(st['v']))
+        return 'ok %d' % (len(live) - 1), 'nl ' + _lst(st['v'], _frac)
+    if k == 'na':
+        other = live[st['c']] if 'c' in st else st['s']
+        live.append([live[st['i']], other])
+        return 'ok %d' % (len(live) - 1), 'na 2 c %d %s' % (st['i'], _operand(st))
+    if k == 'lm':
+        lst = live[st['on']]
+        try:
+            if st['op'] == 'append':
+                lst.append(st['x'])
+            else:
+                lst[st['i']] = st['x']
+            status = 'ok'
+        except Exception as e:
+            status = 'err:' + err_name(e)
+        cmd = 'lm %d ' % st['on'] + ('append %s' % _frac(st['x']) if st['op'] == 'append'
+                                     else 'set %d %s' % (st['i'], _frac(st['x'])))
+        return status, cmd
+    a = dict(st['args'])
+    if k == 'd':
+        info = _info(live[st['on']], live)
+        try:
+            res = apply_derive(live, st['on'], st['op'], a)
+            status = None
+        except Exception as e:
+            res, status = None, 'err:' + err_name(e)
+        if st['op'] in PAYLOAD_OPS and res is None and status != 'err:attr':
+            return None                      # the payload operation failed inside C03/C13 territory
+        cmd = cmd_derive(st['on'], st['op'], a, res, info)
+        if res is not None:
+            n0 = len(live)
+            parts = []
+            for r in res:
+                parts.append(share_str(live, r))
+                live.append(r)
+            status = 'ok %d %s' % (n0, ' '.join(parts))
+        return status, cmd
+    if k == 'm':
+        a['_live'] = live
+        try:
+            apply_mutator(live[st['on']], st['op'], a)
+            status = 'ok'
+        except Exception as e:
+            status = 'err:' + err_name(e)
+        return status, cmd_mutator(st['on'], st['op'], a)
+    raise ValueError(k)
+
+
+def gen_step(rng, infos, malformed):
+    """One random step (plain data) given what is live."""
+    colls = [j for j, o in enumerate(infos) if o['kind'] == 'coll']
+    lists = [j for j, o in enumerate(infos) if o['kind'] == 'list']
+    r = rng.random()
+    if r < 0.07:
+        n = infos[rng.choice(colls)]['n'] if rng.random() < 0.8 else rng.randint(1, 5)
+        return {'k': 'nl', 'v': [rng.randint(100, 140) for _ in range(n)]}
+    if r < 0.11:
+        i = rng.choice(colls)
+        st = {'k': 'na', 'i': i}
+        same = [j for j in colls if infos[j]['cls'] == infos[i]['cls'] and infos[j]['n'] == infos[i]['n']]
+        if rng.random() < 0.5:
+            st['s'] = rng.choice([1, 2.5])
+        else:
+            st['c'] = rng.choice(same)
+        return st
+    if r < 0.17 and lists:
+        on = rng.choice(lists)
+        n = infos[on]['n']
+        if rng.random() < 0.3:
+            return {'k': 'lm', 'on': on, 'op': 'append', 'x': 555}
+        return {'k': 'lm', 'on': on, 'op': 'set', 'x': rng.choice([777, -1.5]),
+                'i': rng.randrange(-n, n) if n and not malformed else n + 2}
+    if r < 0.21 and lists:
+        # a new source whose values are handed over as the caller's list
+        vr = rng.choice(lists)
+        spec = gen_spec(rng, rng.choice(['hd', 'daily', 'monthly', 'mph']), energy=False)
+        n = infos[vr]['n']
+        if len(spec['dts']) >= n and not malformed:
+            spec['dts'] = spec['dts'][:n]
+        spec['vals'] = []
+        return {'k': 'new', 'spec': spec, 'vr': vr}
+    if r < 0.6:
+        on, op, a = gen_derive(rng, infos, malformed)
+        return {'k': 'd', 'on': on, 'op': op, 'args': a}
+    on, op, a = gen_mutator(rng, infos, malformed)
+    return {'k': 'm', 'on': on, 'op': op, 'args': a}
+
+
+def run_steps(steps, ctx=None):
+    """Execute plain steps -> (model line, implementation trace, the steps that were kept)."""
+    live, cmds, trace, kept = [], [], [], []
+    for st in steps:
+        out = exec_step(live, st)
+        if out is None:
+            continue
+        status, cmd = out
+        cmds.append(cmd)
+        kept.append(st)
+        trace.append(status + ' # ' + _obs_all(live))
+    return 'H fixed ; ' + ' ; '.join(cmds), ' | '.join(trace), kept
 
 
 def run_history(rng, ctx=None, max_steps=8):
@@ -604,62 +870,45 @@ def run_history(rng, ctx=None, max_steps=8):
     for _ in range(nsrc - 1):
         if rng.random() < 0.6:      # a sibling aligned with the first one (for arithmetic / windrose / cfa)
             s = copy.deepcopy(specs[0])
-            s['vals'] = [rng.randint(0, 30) for _ in s['vals']]
+            s['vals'] = [rng.randint(1, 30) for _ in s['vals']]
             s['mutable'] = rng.random() < 0.5
             s['meta'] = rng.choice([{}, {'k1': 3}, {'k2': [4]}])
             specs.append(s)
         else:
             specs.append(gen_spec(rng))
-    live, cmds, trace, steps = [], [], [], []
+    live, cmds, trace, kept = [], [], [], []
+
+    def do(st):
+        out = exec_step(live, st)
+        if out is None:
+            return
+        status, cmd = out
+        cmds.append(cmd)
+        kept.append(st)
+        trace.append(status + ' # ' + _obs_all(live))
+        if ctx:
+            if st['k'] in ('d', 'm'):
+                ctx.count(('derive:' if st['k'] == 'd' else 'mutate:') + st['op'])
+                ctx.count(('derive_status:' if st['k'] == 'd' else 'mutate_status:') + status.split(' ')[0])
+            else:
+                ctx.count('step:' + st['k'])
+
     for s in specs:
-        c = build_obj(s)
-        live.append(c)
-        cmds.append(cmd_new(s, c.validated_a_period))
-        trace.append('ok %d # %s' % (len(live) - 1, ' # '.join(obs_str(o) for o in live)))
+        do({'k': 'new', 'spec': s})
     nsteps = rng.randint(1, max_steps)
     for _ in range(nsteps):
         malformed = rng.random() < 0.1
-        infos = [_info(c) for c in live]
-        if rng.random() < 0.55:
-            on, op, a = gen_derive(rng, infos, malformed)
-            try:
-                res = apply_derive(live, on, op, a)
-                status = None
-            except Exception as e:
-                res, status = None, 'err:' + err_name(e)
-            if op in PAYLOAD_OPS and res is None and status != 'err:attr':
-                continue                 # the payload operation failed inside C03/C13 territory
-            cmds.append(cmd_derive(on, op, a, res, infos[on]))
-            if res is not None:
-                old = list(live)
-                parts = []
-                for r in res:
-                    parts.append(share_str(live, r))
-                    live.append(r)
-                status = 'ok %d %s' % (len(old), ' '.join(parts))
-            steps.append({'k': 'd', 'on': on, 'op': op,
-                          'args': {k: v for k, v in a.items() if not k.startswith('_')}})
-            if ctx:
-                ctx.count('derive:' + op)
-                ctx.count('derive_on:%s/%s' % (infos[on]['cls'], 'mut' if infos[on]['mutable'] else 'imm'))
-                ctx.count('derive_status:' + (status.split(' ')[0]))
-        else:
-            on, op, a = gen_mutator(rng, infos, malformed)
-            try:
-                apply_mutator(live[on], op, a)
-                status = 'ok'
-            except Exception as e:
-                status = 'err:' + err_name(e)
-            cmds.append(cmd_mutator(on, op, a))
-            steps.append({'k': 'm', 'on': on, 'op': op, 'args': a})
-            if ctx:
-                ctx.count('mutate:' + op)
-                ctx.count('mutate_status:' + status)
-        trace.append(status + ' # ' + ' # '.join(obs_str(o) for o in live))
+        infos = [_info(c, live) for c in live]
+        st = gen_step(rng, infos, malformed)
+        if ctx and st['k'] == 'd':
+            me = infos[st['on']]
+            ctx.count('derive_on:%s/%s' % (me['cls'], 'mut' if me['mutable'] else 'imm'))
+        st = json.loads(json.dumps(st))       # plain data only
+        do(st)
     if ctx:
         ctx.count('history_len:%d' % nsteps)
         ctx.count('sources:%d' % nsrc)
-    return 'H fixed ; ' + ' ; '.join(cmds), ' | '.join(trace), {'build': specs, 'steps': steps}
+    return 'H fixed ; ' + ' ; '.join(cmds), ' | '.join(trace), {'steps': kept}
 
 
 def _rat(tok):
@@ -694,13 +943,14 @@ def traces_differ(model, impl):
     return None
 
 
+_HCSPEC = {'cls': 'hc', 'mutable': True, 'unit': 'C', 'ap': [1, 1, 0, 1, 1, 23, 1, 0], 'meta': {'k1': 1, 'k2': [1, 2]},
+           'dts': [h * 60 for h in range(24)], 'vals': list(range(24))}
+
 FIXED_HISTORIES = [
-    # the defects the model describes as repaired (fixes/C14_*.patch)
-    {'build': [{'cls': 'hc', 'mutable': True, 'unit': 'C', 'ap': [1, 1, 0, 1, 1, 23, 1, 0], 'meta': {'k1': 1},
-                'dts': [h * 60 for h in range(24)], 'vals': list(range(24))},
-               {'cls': 'hc', 'mutable': True, 'unit': 'C', 'ap': [1, 1, 0, 1, 1, 23, 1, 0], 'meta': {},
-                'dts': [h * 60 for h in range(24)], 'vals': [370] * 24}],
-     'steps': [{'k': 'd', 'on': 0, 'op': 'add', 'args': {'c': 1}},
+    # the defects the model describes as repaired (commits 1e6921b .. 53e5134 of /repo)
+    {'steps': [{'k': 'new', 'spec': _HCSPEC},
+               {'k': 'new', 'spec': dict(_HCSPEC, meta={}, vals=[370] * 24)},
+               {'k': 'd', 'on': 0, 'op': 'add', 'args': {'c': 1}},
                {'k': 'm', 'on': 2, 'op': 'conv_unit', 'args': {'u': 1}},
                {'k': 'd', 'on': 0, 'op': 'to_immutable', 'args': {}},
                {'k': 'm', 'on': 0, 'op': 'conv_unit', 'args': {'u': 2}},
@@ -711,43 +961,44 @@ FIXED_HISTORIES = [
                {'k': 'm', 'on': 5, 'op': 'meta_set', 'args': {'k': 'k3', 'v': 'edited'}},
                {'k': 'd', 'on': 3, 'op': 'cfa', 'args': {'s': 2, 'u': 0}},
                {'k': 'd', 'on': 1, 'op': 'windrose', 'args': {'j': 0, 'n': 4}}]},
+    # nested metadata lists are deep-copied; the caller's lists are copied, never kept
+    {'steps': [{'k': 'new', 'spec': _HCSPEC},
+               {'k': 'd', 'on': 0, 'op': 'dup', 'args': {}},
+               {'k': 'm', 'on': 1, 'op': 'meta_append', 'args': {'k': 'k2', 'x': 77}},
+               {'k': 'd', 'on': 0, 'op': 'agg', 'args': {'iv': 'monthly', 'fn': 'average', 'p': 50}},
+               {'k': 'm', 'on': 2, 'op': 'meta_append', 'args': {'k': 'k2', 'x': 78}},
+               {'k': 'nl', 'v': [100 + i for i in range(24)]},
+               {'k': 'm', 'on': 0, 'op': 'set_values_ref', 'args': {'r': 3}},
+               {'k': 'm', 'on': 0, 'op': 'set_item', 'args': {'i': 0, 'x': 999}},
+               {'k': 'lm', 'on': 3, 'op': 'set', 'i': 1, 'x': 888},
+               {'k': 'd', 'on': 0, 'op': 'aligned', 'args': {'r': 3, 'u': None, 'm': None}},
+               {'k': 'm', 'on': 4, 'op': 'set_item', 'args': {'i': 2, 'x': 5}},
+               {'k': 'na', 'i': 0, 's': 2},
+               {'k': 'd', 'on': 0, 'op': 'cfa_ref', 'args': {'args': 5, 'u': 0}},
+               {'k': 'new', 'spec': {'cls': 'monthly', 'mutable': True, 'unit': 'C', 'ap': [1, 1, 0, 12, 31, 23, 1, 0],
+                                     'meta': {}, 'dts': [1, 2], 'vals': []}, 'vr': 3},
+               {'k': 'nl', 'v': [3, 4]},
+               {'k': 'new', 'spec': {'cls': 'monthly', 'mutable': True, 'unit': 'C', 'ap': [1, 1, 0, 12, 31, 23, 1, 0],
+                                     'meta': {}, 'dts': [1, 2], 'vals': []}, 'vr': 7},
+               {'k': 'm', 'on': 8, 'op': 'set_item', 'args': {'i': 0, 'x': 0}},
+               {'k': 'lm', 'on': 7, 'op': 'append', 'x': 9}]},
+    # area / time normalisations
+    {'steps': [{'k': 'new', 'spec': dict(_HCSPEC, dtype='Energy', unit='kWh', meta={'type': 'Zone Energy', 'k2': [1]})},
+               {'k': 'd', 'on': 0, 'op': 'normalize', 'args': {'area': 2}},
+               {'k': 'm', 'on': 1, 'op': 'meta_append', 'args': {'k': 'k2', 'x': 5}},
+               {'k': 'd', 'on': 1, 'op': 'aggregate_area', 'args': {'area': 2}},
+               {'k': 'd', 'on': 0, 'op': 'time_rate', 'args': {}},
+               {'k': 'd', 'on': 3, 'op': 'time_agg', 'args': {}},
+               {'k': 'd', 'on': 0, 'op': 'to_immutable', 'args': {}},
+               {'k': 'd', 'on': 5, 'op': 'normalize', 'args': {'area': 4}},
+               {'k': 'm', 'on': 6, 'op': 'set_item', 'args': {'i': 0, 'x': 1}}]},
 ]
 
 
 def replay_history(hist):
     """Execute a stored plain history on the real objects -> (model line, impl trace)."""
-    live, cmds, trace = [], [], []
-    for s in hist['build']:
-        c = build_obj(s)
-        live.append(c)
-        cmds.append(cmd_new(s, c.validated_a_period))
-        trace.append('ok %d # %s' % (len(live) - 1, ' # '.join(obs_str(o) for o in live)))
-    for st in hist['steps']:
-        a = dict(st['args'])
-        if st['k'] == 'd':
-            info = _info(live[st['on']])
-            try:
-                res = apply_derive(live, st['on'], st['op'], a)
-                status = None
-            except Exception as e:
-                res, status = None, 'err:' + err_name(e)
-            cmds.append(cmd_derive(st['on'], st['op'], a, res, info))
-            if res is not None:
-                n0 = len(live)
-                parts = []
-                for r in res:
-                    parts.append(share_str(live, r))
-                    live.append(r)
-                status = 'ok %d %s' % (n0, ' '.join(parts))
-        else:
-            try:
-                apply_mutator(live[st['on']], st['op'], a)
-                status = 'ok'
-            except Exception as e:
-                status = 'err:' + err_name(e)
-            cmds.append(cmd_mutator(st['on'], st['op'], a))
-        trace.append(status + ' # ' + ' # '.join(obs_str(o) for o in live))
-    return 'H fixed ; ' + ' ; '.join(cmds), ' | '.join(trace)
+    line, tr, _ = run_steps(hist['steps'])
+    return line, tr
 
 
 def correspondence(ctx):
@@ -906,40 +1157,43 @@ def check_derive(inp):
 
 
 def check_history(inp):
-    """Random history on the real objects: after a derive every older object is unchanged; after a
-    mutator every other object is unchanged (and the target too when the call raised or is immutable)."""
-    live = [build_obj(s) for s in inp['build']]
+    """Random history on the real objects: after a step that builds or derives something every older
+    object is unchanged; after an in-place edit of one object every other object is unchanged (and the
+    target too when the call raised or the target is an immutable collection)."""
+    live = []
+    names = ('class', 'values', 'unit', 'data_type', 'period', 'metadata', 'datetimes', 'validated',
+             'values_type')
     for n, st in enumerate(inp['steps']):
+        refs = [st.get('on', 0), st.get('vr') or 0, st.get('i', 0) if st['k'] == 'na' else 0,
+                st.get('c', 0) if st['k'] == 'na' else 0]
+        a = st.get('args', {})
+        refs += [a.get(x, 0) or 0 for x in ('c', 'j', 'r', 'args')]
+        if any(r >= len(live) for r in refs):
+            continue            # an earlier step did not produce its object (changed implementation)
         before = [snapshot(o) for o in live]
-        a = copy.deepcopy(st['args'])
-        if st['on'] >= len(live) or a.get('c', 0) >= len(live) or a.get('j', 0) >= len(live):
-            continue            # an earlier derivation did not produce its object (changed implementation)
-        if st['k'] == 'd':
-            try:
-                res = apply_derive(live, st['on'], st['op'], a)
-            except Exception:
-                res = []
-            untouched = range(len(live))
-            target = None
-        else:
-            target = st['on']
-            res = []
-            ok = _try_mut(live[target], st['op'], st['args']) == 'ok'
-            untouched = [i for i in range(len(live))
-                         if i != target or not ok or not live[target].is_mutable]
-            if st['op'] in ('meta_set', 'meta_replace', 'meta_append') and ok:
-                untouched = [i for i in untouched if i != target]   # reported separately (known finding)
-        after = [snapshot(o) for o in live]
+        n0 = len(live)
+        try:
+            out = exec_step(live, copy.deepcopy(st))
+        except Exception as e:
+            out = ('err:harness ' + type(e).__name__, '')
+        status = out[0] if out else 'dropped'
+        target = st['on'] if st['k'] in ('m', 'lm') else None
+        untouched = list(range(n0))
+        if target is not None and status == 'ok':
+            tgt = live[target]
+            immutable = _kind(tgt) == 'coll' and not tgt.is_mutable
+            if not immutable or st.get('op', '').startswith('meta_'):
+                untouched.remove(target)    # (metadata edits of immutables: reported separately)
+        after = [snapshot(o) for o in live[:n0]]
         for i in untouched:
             if after[i] != before[i]:
-                diff = [nm for nm, (x, y) in zip(
-                    ('class', 'values', 'unit', 'data_type', 'period', 'metadata', 'datetimes', 'validated',
-                     'values_type'), zip(before[i], after[i])) if x != y]
-                return {'required': 'object %d unchanged by step %d (%s on %d)' % (i, n, st['op'], st['on']),
+                diff = [nm for nm, (x, y) in zip(names, zip(before[i], after[i])) if x != y] \
+                    if before[i][0] not in ('list', 'args') else [before[i][0]]
+                return {'required': 'object %d unchanged by step %d (%s %s on %s)' % (
+                            i, n, st['k'], st.get('op', ''), st.get('on', '-')),
                         'observed': 'changed: ' + ','.join(diff),
-                        'sig': {'step': st['op'], 'kind': st['k'], 'changed': ','.join(diff),
+                        'sig': {'step': st.get('op', st['k']), 'kind': st['k'], 'changed': ','.join(diff),
                                 'self': i == target}}
-        live.extend(res)
     return None
 
 
@@ -1172,8 +1426,8 @@ def _derive_args(rng, op, spec, nbuild):
     return {}
 
 
-SWEEP_OPS = DERIVE_OPS + ['copy', 'hourlyplot', 'monthlychart', 'statement_filter_many', 'from_dict',
-                          'normalize', 'aggregate_area', 'time_aggregated', 'time_rate']
+SWEEP_OPS = [o for o in DERIVE_OPS if o != 'cfa_ref'] + ['copy', 'hourlyplot', 'monthlychart',
+                                                         'statement_filter_many', 'from_dict']
 
 
 def _sweep_cases(ctx):
@@ -1192,7 +1446,7 @@ def _sweep_cases(ctx):
                         spec.update(dtype='Energy', unit='kWh', meta={'type': 'Energy', 'k2': [1]})
                     elif op == 'aggregate_area':
                         spec.update(dtype='EnergyIntensity', unit='kWh/m2', meta={'type': 'Energy Intensity'})
-                    elif op == 'time_aggregated':
+                    elif op in ('time_aggregated', 'time_agg'):
                         spec.update(dtype='Power', unit='W')
                     sib = _twin(spec, vals=[(v % 7) + 1 for v in spec['vals']], mutable=rng.random() < 0.5,
                                 meta={'k2': [5]})
